@@ -76,7 +76,7 @@ def main():
     ap = argparse.ArgumentParser()
     ap.add_argument("property")
     ap.add_argument("--tier", default=os.environ.get("VERIF_TIER", "quick"), choices=["quick", "thorough"])
-    ap.add_argument("--jobs", type=int, default=int(os.environ.get("VERIF_JOBS", "6")))
+    ap.add_argument("--jobs", type=int, default=int(os.environ.get("VERIF_JOBS", "8")))
     ap.add_argument("--only", default=None, help="substring filter on harness names (debugging)")
     ap.add_argument("--keep", action="store_true")
     args = ap.parse_args()
@@ -86,7 +86,7 @@ def main():
 
     hs = registry.select(pid, args.tier)
     if args.only:
-        hs = [h for h in hs if args.only in h["fqn"]]
+        hs = [h for h in hs if any(o in h["fqn"] for o in args.only.split(","))]
     if not hs:
         log("no harness registered for", pid)
         return 2
@@ -158,6 +158,13 @@ def main():
             try:
                 to = h["timeout_thorough"] if args.tier == "thorough" else h["timeout"]
                 r = kani.run_harness(ovs[h["flavour"]], td, h, logdir, to, h.get("mem", 12))
+                # a run that died without a verdict (solver out of memory under the ulimit) is
+                # repeated once with twice the memory before it is reported as inconclusive
+                if r["verdict"] == "inconclusive" and any(("no verdict" in n or "without a classified" in n or "out of memory" in n) for n in r["notes"]) \
+                        and time.time() - t0 < 500:
+                    first = r["notes"]
+                    r = kani.run_harness(ovs[h["flavour"]], td, h, logdir, to, 2 * h.get("mem", 12))
+                    r["notes"] = r["notes"] + ["second attempt with doubled memory after: " + "; ".join(first)[:120]]
                 r["_td"] = td
                 return r
             finally:
@@ -246,12 +253,14 @@ def main():
             "coverage": {
                 "states": max(1, sum(r["stats"].get("sat_vars", 0) for r in results if r.get("stats"))),
                 "transitions": max(1, sum(r["stats"].get("sat_clauses", 0) for r in results if r.get("stats"))),
-                "traces_validated_against_impl": replays,
+                "traces_validated_against_impl": replays + int(model_val.get("tests_passed") or 0),
                 "samples": samples,
                 "explanation": "states/transitions = SAT variables/clauses summed over the harnesses' "
                                "CBMC queries (bounded model checking of the compiled Rust code; every "
                                "kani::any() input is a solver variable). Each sample is one harness: "
-                               "bounds, functions encoded, stubs, checks discharged, solver time.",
+                               "bounds, functions encoded, stubs, checks discharged, solver time. "
+                               "traces_validated_against_impl = counterexamples replayed natively against the real code "
+                               "+ the repository's own server/fusedev-writer tests run over the model transport (its validation).",
                 "harnesses": len(results), "harnesses_passed": len(passed),
                 "harnesses_inconclusive": len(inconcl),
                 "checks_discharged": sum(r["stats"].get("checks", 0) for r in passed if r.get("stats")),
